@@ -1028,3 +1028,24 @@ class MCSetLedOne:
         code = 1 if action is None else (3 if action else 2)
         return (len(_trace) == 1 and _trace[0][:4] == ("scp", x, y, 0)
                 and _trace[0][5] == (("arg1", code * 2 ** (2 * led)), ("expected_args", 0)))
+
+
+@contract("rig/machine_control/machine_controller.py::MachineController.set_led", variant="three_leds")
+class MCSetLedThree:
+    """several LEDs of one chip: ONE command to the monitor of the chip named, each LED's action in its own two bits"""
+    properties = ("C18",)
+    params = dict(self=TRec("MachineController"), led=TList(TInt(0, 3), TInt(0, 3), TInt(0, 3)), action=TOpt(TBool()), x=TInt(0, 255), y=TInt(0, 255))
+    externals = {"MachineController._send_scp": _mc_scp_all}
+    options = {"decorators": {"use_contextual_arguments": "identity"}, "no_merge": True, "int_class": "rig/machine_control/consts.py::LEDAction"}
+    assumptions = MCSetLedOne.assumptions
+
+    def native(x):
+        raise __import__("pyvc.replay", fromlist=["OutsideHarness"]).OutsideHarness()
+
+    def requires(led):
+        return led[0] != led[1] and led[1] != led[2] and led[0] != led[2]
+
+    def ensures_every_led_named_on_this_chip_in_one_command(led, action, x, y, _trace):
+        code = 1 if action is None else (3 if action else 2)
+        return (len(_trace) == 1 and _trace[0][:4] == ("scp", x, y, 0)
+                and _trace[0][5] == (("arg1", code * (2 ** (2 * led[0]) + 2 ** (2 * led[1]) + 2 ** (2 * led[2]))), ("expected_args", 0)))
